@@ -385,9 +385,7 @@ pub fn run(args: &Args) -> i32 {
     }
     run.cov("evaluations", evaluations);
     run.cov("distinct_nontrivial", distinct);
-    run.cov("states", distinct);
-    run.cov("transitions", evaluations);
-    run.cov("traces_validated_against_impl", evaluations);
+    run.cov("schedules_executed_on_real_code", evaluations);
     run.cov("determinism_double_runs", determinism);
     run.cov("scenarios", per);
     run.cov("exhaustive", exhaustive);
